@@ -360,6 +360,7 @@ func (h *harness) batch(sessions []Session) {
 			h.run.CountN(k, v)
 		}
 		h.run.Count("proto:" + o.sess.Proto)
+		h.run.Count("ids:" + o.sess.Proto + ":" + idSetNames[o.sess.IDSet%len(idSetNames)])
 		h.run.CountN("messages-observed", len(o.obs.Wire))
 		if o.obs.CloseCode != 0 {
 			h.run.Count(fmt.Sprintf("close-code:%d", o.obs.CloseCode))
@@ -542,7 +543,7 @@ func main() {
 			w.close()
 		}
 	}()
-	run.SetRule("client histories over {init ok|rejected, start/subscribe(query|mutation|subscription|failing subscription|invalid document|undecodable payload) with fresh or re-used ids, stop/complete(known|unknown), ping, pong, terminate, unknown type, malformed, close frame} interleaved with source events / source ends / quiescence points, ended by client close, TCP drop, server close or a protocol error, on both sub-protocols; distinct = distinct session; non-trivial = at least one operation was executed")
+	run.SetRule("client histories over 17 spellings of the operation ids (plain, control characters, NUL, DEL, C1, U+2028, quotes/backslashes, astral, non-printable astral, combining marks, case-only and normalisation-only differences, numeric-looking, very long, …) × {init ok|rejected, start/subscribe(query|mutation|subscription|failing subscription|invalid document|undecodable payload) with fresh or re-used ids, stop/complete(known|unknown), ping, pong, terminate, unknown type, malformed, close frame} interleaved with source events / source ends / quiescence points, ended by client close, TCP drop, server close or a protocol error, on both sub-protocols; distinct = distinct session; non-trivial = at least one operation was executed")
 
 	// No connection exists yet: the baseline of goroutines inside api-fu is what is there now (none).
 	h.leakBase, _ = apifuGoroutines()
